@@ -174,7 +174,7 @@ Definition rinit (enabled : bool) : rstate := if enabled then RSleep else RStopp
 
 Inductive lop :=
 | LOpen (i : nat) (p : proto)
-| LOpenHeld (i : nat)
+| LOpenHeld (i : nat) (p : proto)
 | LRelease (i : nat)
 | LAdvance (i : nat) (to : phase)
 | LCancel
@@ -238,10 +238,10 @@ Definition lstep (w : world) (o : lop) : world * lobs :=
                 | None => (w, XRefused)
                 end
       end
-  | LOpenHeld i =>
+  | LOpenHeld i p =>
       match where_is w i with
       | Some _ => (w, XQ)
-      | None => match wrun w PSmtp [Accept i] with
+      | None => match wrun w p [Accept i] with
                 | Some w' => (w', XHeld)
                 | None => (w, XRefused)
                 end
@@ -360,9 +360,9 @@ Fixpoint loracle_go (k : nat) (ops : list lop) (os : list lobs) (down : bool) (b
               if down then (if lobs_eqb x XRefused then next down bs else (LVAcceptedAfterShutdown k, os'))
               else if lobs_eqb x (greeting p) then next down (bs ++ [mkB i p Greeted true])
               else (LVSessionDisturbed k, os')
-          | LOpenHeld i =>
+          | LOpenHeld i p =>
               if down then (if lobs_eqb x XRefused then next down bs else (LVAcceptedAfterShutdown k, os'))
-              else if lobs_eqb x XHeld then next down (bs ++ [mkB i PSmtp Held true])
+              else if lobs_eqb x XHeld then next down (bs ++ [mkB i p Held true])
               else (LVSessionDisturbed k, os')
           | LProbe p =>
               if down then (if lobs_eqb x XRefused then next down bs else (LVAcceptedAfterShutdown k, os'))
